@@ -352,7 +352,26 @@ func (s *c11State) step(r *gen.R) {
 	say := func(f string, a ...interface{}) { s.log = append(s.log, fmt.Sprintf(f, a...)) }
 	period := func() int { return r.Range(1, 3) }
 	s.dest = nil
-	switch r.Intn(27) {
+	switch r.Intn(28) {
+	case 27:
+		// recording calls that record nothing (a nil error, a nil or empty list, a list of nils - the usual
+		// one-slot-per-validator slice when every validator passed) on a row, attached or not: they change nothing,
+		// now or for what is recorded on that row later
+		var row *c11Row
+		if len(s.held) > 0 && r.Bool() {
+			row = s.held[r.Intn(len(s.held))]
+		} else if rows := s.attachedCellRows(); len(rows) > 0 {
+			row = rows[r.Intn(len(rows))]
+		}
+		if row == nil {
+			return
+		}
+		say("a row (attached=%v) gets AddError(nil), AddErrorList(nil), AddErrorList([]) and AddErrorList([nil nil nil])", row.attached)
+		row.h.AddError(nil)
+		row.h.AddErrorList(nil)
+		row.h.AddErrorList([]error{})
+		row.h.AddErrorList(make([]error, 3))
+		s.c.Rec.Count("recording_calls_that_record_nothing_on_rows", 4)
 	case 26:
 		// looking is not touching: the program prints the table (or hands it to another table as an item, whose
 		// cell then asks it for its text form) for a log line or a debugger
